@@ -123,8 +123,14 @@ def shim_on(include_io=False, builtins_for=(), extra=None, np_module=None):
             saved_np[name] = mod.np
             mod.np = npm
     for name in builtins_for:
+        only = None
+        if ":" in name:
+            name, only = name.split(":")
+            only = only.split(",")
         mod = sys.modules[name]
         for k, v in DEFAULT_BUILTINS.items():
+            if only is not None and k not in only:
+                continue
             saved_bi.append((mod, k, mod.__dict__.get(k, _MISSING)))
             mod.__dict__[k] = v
             STUBS_USED.add(f"{name}.{k} -> symx.{v.__name__}")
